@@ -11,7 +11,7 @@ from vpkit import common, pairs, zoo
 
 ID = "C12"
 N = {"quick": 110, "thorough": 3500}
-BUDGET = {"quick": 240.0, "thorough": 1500.0}
+BUDGET = {"quick": 240.0, "thorough": 700.0}
 RULE = ("case = (contemporaneous zoo input small enough for linear space, method, prior grid, eps, "
         "standardisation); distinct by (topology hash, method, options); non-trivial = in-domain pair "
         "compared (times and full posterior rows)")
